@@ -84,11 +84,87 @@ fn honest(i: usize, seed: u64, thorough: bool) -> HonestOut {
     HonestOut { ok, end: ex.end, key, leaks, windows, fields, triples_runs, sample, deltas }
 }
 
+/// Over 64 honest executions of one public configuration: no bit at a fixed position of a party's raw
+/// traffic equals (or complements) a bit of its global key in every execution.
+fn fixed_position_part(rep: &mut Report, seed: u64, n: usize, p_eval: usize, ands_extra: usize) {
+    let c = faults::fault_circuit(n, ands_extra);
+    let runs = parallel_for(64, threads(), |i| {
+        let mut rng = ChaCha8Rng::seed_from_u64(seed ^ 0xf1c07 ^ (i as u64).wrapping_mul(0x9e3779b97f4a7c15) ^ ((n as u64) << 50) ^ ((p_eval as u64) << 48));
+        let inputs: Vec<Vec<bool>> = (0..n).map(|_| vec![rng.random(), rng.random()]).collect();
+        let mut case = Case::new(c.clone(), inputs, p_eval, (0..n).collect());
+        case.record_probes = true;
+        let ex = exec_mpc(case);
+        if ex.end != RunEnd::AllFinished || !ex.outcomes.iter().all(|o| matches!(o, Outcome::Done(Ok(_)))) {
+            return Err(format!("honest run failed: {:?}", ex.end));
+        }
+        let mut per_party: Vec<(u128, Vec<u8>, Vec<(String, usize, usize)>)> = vec![];
+        for t in 0..n {
+            let Some(d) = ex.probes.iter().find(|r| r.site == "delta" && r.index == t) else { return Err("no delta probe".into()) };
+            let delta = u128::from_le_bytes(d.value[..16].try_into().unwrap());
+            let mut sent = vec![];
+            let mut layout = vec![];
+            for m in ex.net.msgs.iter().filter(|m| m.from == t) {
+                layout.push((ex.net.label(m.label).to_string(), m.k, sent.len()));
+                sent.extend_from_slice(&m.sent);
+            }
+            per_party.push((delta, sent, layout));
+        }
+        Ok(per_party)
+    });
+    rep.evaluations += 64;
+    let mut good = vec![];
+    for r in runs {
+        match r {
+            Ok(x) => good.push(x),
+            Err(e) => {
+                if crate::hooks::HOOKS_ON { rep.harness_error(e) }
+            }
+        }
+    }
+    if good.len() < 64 {
+        if crate::hooks::HOOKS_ON { rep.inconclusive("too few executions for the fixed-position scan"); }
+        return;
+    }
+    for t in 0..n {
+        let nbytes = good[0][t].1.len();
+        if good.iter().any(|g| g[t].1.len() != nbytes) {
+            rep.harness_error("traffic layout differs between executions (judged by C09)");
+            continue;
+        }
+        let mut keys: std::collections::HashMap<u64, (usize, bool)> = Default::default();
+        for b in 0..128 {
+            let mut v = 0u64;
+            for (e, g) in good.iter().enumerate() {
+                v |= (((g[t].0 >> b) & 1) as u64) << e;
+            }
+            if v != 0 && v != u64::MAX {
+                keys.insert(v, (b, false));
+                keys.insert(!v, (b, true));
+            }
+        }
+        let sent: Vec<&[u8]> = good.iter().map(|g| g[t].1.as_slice()).collect();
+        let hits = leak::fixed_position_hits(&sent, &keys);
+        rep.add("fixed_position_bits_scanned", (nbytes * 8) as u64);
+        rep.add("fixed_position_key_bits", (keys.len() / 2) as u64);
+        rep.distinct.insert(format!("fixed-position|n={n}|E={p_eval}|ands={}|party={t}", 3 + ands_extra));
+        let mut reported: std::collections::HashSet<String> = Default::default();
+        for (b, bit, (kb, compl)) in hits {
+            let mut cur = (String::from("?"), 0usize, 0usize);
+            for (l, k, s) in &good[0][t].2 {
+                if *s <= b { cur = (l.clone(), *k, b - *s); } else { break; }
+            }
+            if reported.insert(cur.0.clone()) {
+                rep.violation(format!("a bit at a fixed position of an honest party's traffic ('{}') equals a bit of its global key in every execution", cur.0), json!({"n": n, "p_eval": p_eval, "party": t, "key_bit": kb, "complemented": compl, "label": cur.0, "occurrence": cur.1, "byte_in_message": cur.2, "bit": bit, "executions": 64}));
+            }
+        }
+    }
+}
+
 pub fn run(tier: &str, seed: u64) -> i32 {
     let thorough = tier == "thorough";
     let mut rep = Report::new("C07", tier, seed, "fault_enumeration");
-    rep.rule = "honest runs over generated circuits with NOT gates (n=2..4, every role) and every adversarial execution of the C03 and C04 catalogues; in each execution the complete transcript (what honest parties sent, what the corrupted party put on the wire) is scanned for each honest party's global key (probe): the key itself at every byte offset in both byte orders, two 16-byte windows (every offset, both orders, mixed) XORing to the key, and (honest n=2 runs) three decoded 128-bit fields XORing to it. distinct = honest configuration (n, evaluator, output set, AND class, features) or (configuration, corrupted party, label, deviation class); non-trivial = a delta probe was recorded and at least one window was scanned".into();
-    rep.assumptions = vec!["XOR sets of size > 3, non-linear leakage and single leaked key bits (KOS selective failure) are not detected".into()];
+    rep.rule = "honest runs over generated circuits with NOT gates (n=2..4, every role) and every adversarial execution of the C03 and C04 catalogues; in each execution the complete transcript (what honest parties sent, what the corrupted party put on the wire) is scanned for each honest party's global key (probe): the key itself at every byte offset in both byte orders, two 16-byte windows (every offset, both orders, mixed) XORing to the key, and (honest n=2 runs) three decoded 128-bit fields XORing to it; in addition, over 64 honest executions of one public configuration no bit at a fixed position of a party's raw traffic may equal or complement a bit of its global key in every execution. distinct = honest configuration (n, evaluator, output set, AND class, features) or (configuration, corrupted party, label, deviation class); non-trivial = a delta probe was recorded and at least one window was scanned".into();
+    rep.assumptions = vec!["XOR sets of size > 3, non-linear leakage and key bits leaked through abort behaviour (KOS selective failure) are not detected".into()];
     let n_honest = if thorough { 1500 } else { 120 };
     let outs = parallel_for(n_honest, threads(), |i| honest(i, seed, thorough));
     let mut windows = 0u64;
@@ -127,6 +203,10 @@ pub fn run(tier: &str, seed: u64) -> i32 {
         if rep.samples.len() < 2 {
             rep.sample(o.sample);
         }
+    }
+    // fixed-position disclosure of single key bits over 64 honest executions
+    for (n, p_eval, extra) in if thorough { vec![(2usize, 0usize, 0usize), (2, 1, 0), (3, 0, 0), (3, 2, 0), (2, 0, 997), (2, 1, 1200), (4, 1, 0)] } else { vec![(2, (seed % 2) as usize, 0), (3, (seed % 3) as usize, 0), (2, ((seed + 1) % 2) as usize, 997)] } {
+        fixed_position_part(&mut rep, seed, n, p_eval, extra);
     }
     let w = build(tier, seed);
     let mut adv_windows = 0u64;
